@@ -4,6 +4,8 @@ package rtpconn
 
 import (
 	"fmt"
+	"reflect"
+	"unsafe"
 
 	"github.com/jech/galene/group"
 	"github.com/jech/galene/unbounded"
@@ -49,7 +51,14 @@ func (v *VerifC08Client) Init(username string, perms []string) {
 
 // ChangePermissions applies the action an operator's useraction enqueues.
 func (v *VerifC08Client) ChangePermissions(kind string) error {
-	return handleAction(v.C, changePermissionsAction{kind})
+	var a changePermissionsAction
+	a.kind = kind
+	// the action names the group it was issued in (when the tree under test
+	// has that field): the client's current one, as the operator's handler does
+	if f := reflect.ValueOf(&a).Elem().FieldByName("group"); f.IsValid() {
+		reflect.NewAt(f.Type(), unsafe.Pointer(f.UnsafeAddr())).Elem().Set(reflect.ValueOf(v.C.group))
+	}
+	return handleAction(v.C, a)
 }
 
 // VerifC08Action is a summary of one queued action.
